@@ -60,3 +60,18 @@ std::uint64_t witness_c13_radix(std::vector<std::pair<std::uint64_t, int> >& out
     s.clear();
     return r;
 }
+
+// narrow key types (the property covers 8..64-bit keys): integer promotion inside the bucket computation matters here
+template <typename K>
+static std::uint64_t small_key_heap(K a, K b) {
+    tlx::RadixHeapPair<K, int, 4> h;
+    h.push({a, 1});
+    h.emplace(b, b, 2);
+    std::uint64_t r = std::uint64_t(h.top().first) + h.size();
+    h.pop();
+    h.clear();
+    return r;
+}
+std::uint64_t witness_c13_radix_small() {
+    return small_key_heap<std::uint8_t>(1, 2) + small_key_heap<std::int8_t>(-1, 2) + small_key_heap<std::uint16_t>(1, 2) + small_key_heap<std::int16_t>(-1, 2);
+}
